@@ -857,6 +857,15 @@ func c04Run(r *Run) {
 			g := &opGuard{fn: fd, src: fd, toks: toks, signed: signed, kind: kind, pos: pos}
 			g.prefix = leftPos == token.NoPos || pos < leftPos
 			bodyInfo(g, body)
+			// a guard in front of the level's operand parse that builds a *binary* node has a left operand
+			// of its own (a literal built on the spot): the operator is consumed as an infix operator here
+			if g.prefix && g.hasNext && len(g.rights) > 0 {
+				for _, c := range g.ctors {
+					if c == "NewBinaryExpression" {
+						g.prefix = false
+					}
+				}
+			}
 			lv.guards = append(lv.guards, g)
 		}
 		visit = func(list []ast.Stmt) {
